@@ -1,9 +1,9 @@
-\* C35 leg A thorough: 3 local blocks, <= 2 crashes and <= 2 failed bucket calls anywhere;
+\* C35 leg A thorough: 3 local blocks, <= 2 crashes and <= 1 failed bucket call anywhere;
 \* generated cases: 1..2 blocks, pre-state absent/partial/complete, <= 2 crash points
 SPECIFICATION Spec
 CONSTANTS N = 3
           MaxCrashes = 2
-          MaxFails = 2
+          MaxFails = 1
           CaseN = 2
           CaseCrashes = 2
           CaseKinds = {"L1", "E", "L2"}
